@@ -184,6 +184,29 @@ CLAIMS['C18'] = dict(
     note='Trusted: CPython ast; the decode model and field sets (sa/decode.py, sa/fields.py); configuration validity; '
          'DRegion <= number_of_mpu_regions.')
 
+CLAIMS['C01'] = dict(
+    category='other', design_ref='DESIGN.md section 4 (C01)',
+    technique='structured effect walk of the 68 data-processing execute() bodies with term normalisation, compared with a '
+              'per-instruction role table (operand roles, carry-in, which helper result feeds which flag); frame / dominance / '
+              'joint PC-destination rules against the decode model; interval widths; ALUWritePC exact table',
+    text='Decides, for every operand value / flag state / shift amount (properties of all paths of loop-free bodies): which '
+         'operands are combined how (ADD..RSC carry-in and inversion roles, logical ops, moves, shifts), which result feeds N, Z, '
+         'C, V, that flags change only under setflags, that nothing outside {Rd, PC, NZCV} is written, that Rd == PC takes the '
+         'ALUWritePC path exactly where decode allows d == 15, guard and widths. Not decided: that AddWithCarry / Shift_C / the '
+         'expand-immediate helpers compute the architectural numbers (declared under C17).',
+    note='Trusted: CPython ast; the role table in sa/props/c01.py (ARM ARM A8 pseudocode); binding through spec/enc_*.json.')
+CLAIMS['C04'] = dict(
+    category='other', design_ref='DESIGN.md section 4 (C04), Appendix A.7',
+    technique='ordering / ownership rules on the PC-advance mechanism, exact tables of the PC read and the four PC-write '
+              'functions by bit-vector abstract interpretation against a reference, normalised effect templates of every '
+              'branch opcode, reference wiring of branch offsets, interval widths',
+    text='PC advances by the fetched length exactly when the instruction did not branch; R15 reads address + 8 / + 4; '
+         'BranchWritePC / BXWritePC / ALUWritePC / LoadWritePC equal the reference for every address, instruction-set state and '
+         'architecture version and keep the PC aligned; B, BL/BLX, BX, CBZ/CBNZ, TBB/TBH produce the architectural target, link '
+         'value (bit 0 from Thumb) and instruction-set switch; offsets are sign-extended and scaled per the reference wiring '
+         '(known finding: CBZ scale).',
+    note='Trusted: CPython ast; sa/refmodel.py + tables in sa/props/c04.py; spec/enc_*.json.')
+
 PENDING = 'checker not armed yet in this session (under construction); nothing is claimed for it until its rules run clean'
 
 checks = []
